@@ -19,6 +19,12 @@ Theorem C01_move_climb_in_box : forall sp cons, dims_ok sp -> forall fuel t c p 
 Proof. intros sp cons Hd fuel t c p t' c' Hn H. destruct (move_climb_ok sp cons Hd fuel t c p t' c' Hn H) as [[A _] _]. exact A. Qed.
 Print Assumptions C01_move_climb_in_box.
 
+(* the particle / spiral move (astype(int) then clip): in the box for every velocity, also huge, negative, non-finite *)
+Theorem C01_move_part_in_box : forall s, dims_ok s -> forall p velo, length p = length s -> length velo = length s ->
+  in_box s (move_part s p velo).
+Proof. exact move_part_in_box. Qed.
+Print Assumptions C01_move_part_in_box.
+
 (* an in-box position is decoded without numpy's negative-index wrapping, to genuine elements *)
 Theorem C01_in_box_decodes_genuinely : forall sp p, in_box sp p ->
   exists v, p2v sp p = Ok v /\ Forall2 (fun dim x => In x dim) sp v.
